@@ -332,7 +332,7 @@ PROPS = {
                              search=[('hist', ['-n', 2500, '-scans', 8, '-focus', 'faults'])]),
                 aspects=['hist:outcome', 'hist:reccount', 'hist:ok', 'panic'], monitors=['C20'],
                 theorems=['Esc.P.C20_outcomes', 'Esc.P.C20_fatal_only_partial', 'Esc.P.C20_contained', 'Esc.P.C20_provider_id_guard', 'Esc.P.C20_ready_bounded',
-                          'Esc.P.C12_containment'],
+                          'Esc.P.C12_containment', 'Esc.P.C20_stop_founded', 'Esc.P.tryDelete_notInGroup'],
                 technique='Lean 4 theorem (totality/termination of the model by construction, enumeration of RunOnce outcomes, error containment, index guard) + differential correspondence of the outcome class of every scan under odd object shapes and single/double injected faults + monitor; partial',
                 level_text='PARTIAL. Proved over the model: every function is total and every loop bounded (accepted definitions; C20_ready_bounded), a RunOnce ends in one of five enumerated ways (C20_outcomes), errors confined to a node or group do not stop the run '
                            '(C20_contained), the only out-of-range index on the path is guarded (C20_provider_id_guard); C20_fatal_only_partial: without refresh failure / fleet strikes the only fatal outcome is not-in-group (the two other stop conditions are findings T5, T8). '
